@@ -1,6 +1,6 @@
 (* extraction of the chart semantics models (ExtrOcamlBasic only) *)
 Require Extraction.
 Require Import ExtrOcamlBasic.
-From V Require Import Base NameMatch Chart Exec Large Interp Spec Legal Trace Fast SetLemmas LegalAbstract LegalLarge WfCore.
+From V Require Import Base NameMatch Chart Exec Large Interp Spec Legal Trace Fast SetLemmas LegalAbstract LegalLarge WfCore LargeCache.
 Extraction Language OCaml.
-Extraction "vmodel.ml" wf_coreb run_fast legal_sids wf_traceb wf_first_bad run_spec run_large flatten lg_fixed lg_pinned ex_fixed ex_pinned Build_lg_variant Build_ex_variant.
+Extraction "vmodel.ml" run_large_c wf_coreb run_fast legal_sids wf_traceb wf_first_bad run_spec run_large flatten lg_fixed lg_pinned ex_fixed ex_pinned Build_lg_variant Build_ex_variant.
